@@ -3,10 +3,12 @@
 Require Extraction.
 Require Import ExtrOcamlBasic.
 From Coq Require Import List NArith.
-From FT Require Import Model.Codec Oracles.OC12.
+From FT Require Import Model.Base Model.Codec Model.Local Model.Records Model.Spsc Model.Collector
+     Model.System Oracles.OC12.
 Extraction Language OCaml.
 Extraction "model.ml"
-  N.add N.mul N.eqb N.ltb N.leb N.of_nat N.to_nat
+  N.add N.mul N.sub N.eqb N.ltb N.leb N.of_nat N.to_nat N.compare
   encode_traceparent decode_traceparent display_trace display_span from_str_trace from_str_span
   serde_ser_trace serde_ser_span serde_de_trace serde_de_span
-  P_C12 valid_tp.
+  P_C12 valid_tp
+  sys_init step run to_span_records.
